@@ -14,6 +14,7 @@ package c02
 import (
 	"encoding/json"
 	"fmt"
+	"sync"
 	"testing"
 	"time"
 
@@ -80,8 +81,16 @@ func runSubAck(c SubAckCase) *failure {
 		done[i] = make(chan bool, 1)
 		pub := pubs[i]
 		var seen []byte
+		var mu sync.Mutex
+		fired := false
 		subs[i].Conn.OnWritten(func(p []byte) bool {
-			// the SUBACK (0x90, remaining length 2 + filters, identifier 0x0007) has gone by
+			// the SUBACK (0x90, remaining length 2 + filters, identifier 0x0007) has gone by; other
+			// broker goroutines (retained replays) may write meanwhile: the hook acts once
+			mu.Lock()
+			if fired {
+				mu.Unlock()
+				return true
+			}
 			seen = append(seen, p...)
 			at := -1
 			for j := 0; j+4 <= len(seen); j++ {
@@ -90,8 +99,11 @@ func runSubAck(c SubAckCase) *failure {
 				}
 			}
 			if at < 0 || len(seen) < at+2+2+c.Filters {
+				mu.Unlock()
 				return false
 			}
+			fired = true
+			mu.Unlock()
 			pub.Send(sim.EncPublish(topic, []byte(fmt.Sprintf("live-%d", i)), byte(c.QoS), false, false, 9))
 			ok := false
 			for until := time.Now().Add(10 * time.Second); time.Now().Before(until); time.Sleep(200 * time.Microsecond) {
